@@ -31,8 +31,10 @@ CLAIMS = {
              "frames) and parser_finishes (one root, no open node). C02Fuel.lean: check_bound (quantitative refinement of "
              "check_sound: every function runs within W + 92*remaining + 13*rank levels of fuel), parser_fuel_bound / "
              "run_not_outOfFuel / run_ok_of_fuel (92*len + 92 levels suffice for every input), parse_never_panics_of_parseFuel. "
-             "The linear "
-             "work constant is measured (steps per token on both sides), not proved; stack depth is a runtime measurement.",
+             "Work bound PROVED: parse_work_linear (steps <= 500*(characters+1)) and parse_work_linear_tokens (steps <= 500*(tokens+1)), "
+             "where steps = calls of lex and start_node, exactly what the Rust hook counts (check_cost: a quantitative refinement of "
+             "check_sound with a rebate per unit of progress; the constant is what the accounting needs, the measured need is below 3 "
+             "per token on the model and about 7 on the Rust side, still compared on every run); stack depth is a runtime measurement.",
         tech="Lean 4 proof: verified abstract-interpretation checker (total-correctness soundness theorem) + decide +kernel on the grammar",
         ref="DESIGN.md §7 C02"),
     "C04": dict(
@@ -59,8 +61,11 @@ CLAIMS = {
              "statements by induction) + value_converse (every value form) + source_file_converse_shape: an input parsed with zero "
              "errors whose token kinds avoid the listed adjacent-token patterns (Shape, VShape: exactly the deviations where the "
              "parser accepts more than the documentation) is a sentence of the documented grammar (Doc.Sentence) - no residual "
-             "hypothesis; VShape over-excludes empty `{ }` bodies and `x[1,]` (use source_file_converse_partial + value_converse "
-             "there). Outside the shapes decided case by case by the recogniser (testing, labelled). 10 deviations of the parser from the documented grammar are known "
+             "hypothesis; sharper: source_file_converse_values (the value patterns are asked of the Value nodes of the TREE only, so "
+             "empty record bodies / blocks and `x[1,]` are covered). Negatives as theorems: valueOK_false, full_converse_false and "
+             "deviation_*_accepted_not_documented (string-concat, type-code, empty-value-list, list-type-suffix, trailing separators: "
+             "parsed cleanly and NOT a documented sentence, by a verified complete matcher). Outside the shapes decided case by case "
+             "by the recogniser (testing, labelled). 10 deviations of the parser from the documented grammar are known "
              "findings (DESIGN.md §12.5).",
         tech="Lean 4 proof (abstract interpreter over token kinds + simulation theorem, per-rule contracts by mutual structural recursion) "
              "over a grammar table regenerated from the documentation + differential correspondence + Earley oracle",
@@ -225,14 +230,21 @@ CLAIMS = {
         tech="Lean 4 proof (invariant + ranking function over a parametric transition system) + schedule replay on the real server",
         ref="DESIGN.md §7 C08"),
     "C09": dict(
-        text="Lean theorem location_denotes: a byte span of the text of the document a response names, converted to LSP positions "
+        text="Lean theorems: server_locations_denote_all and the seven per-handler K_denotes theorems on the model of the conversion "
+             "layer (see the note), and location_denotes: a byte span of the text of the document a response names, converted to LSP positions "
              "with that text's line table and read back against the same text, is the same span (composition of C10's round "
              "trip); wrong_text_differs is the witness behind the repaired defect. The check compares every range of every "
              "response kind (definition, references, documentSymbol, foldingRange, documentLink, inlayHint) and of the published "
              "diagnostics of the real server with the ide-level span converted against the named document by a reference mapper "
              "that is itself validated against the Lean LineIndex model on every text of the run.",
-        note="Thin on the Lean side by design (the choice of line table per handler is code, tied by correspondence only).",
-        tech="Lean 4 proof (composition of the C10 round trip) + JSON-level correspondence on multi-file workspaces with differing line structure",
+        note="TgModel/Lsp.lean models to_proto.rs and the choice of line table of every handler of server.rs; per handler "
+             "definition_/references_/documentSymbol_/foldingRange_/documentLink_/inlayHint_/diagnostics_denotes (if the ide-level ranges "
+             "are valid in the file they name, every position of the LSP answer read back against the text of the NAMED document gives "
+             "the ide-level span; folding ranges send lines only: the lines of the two ends), and the composition with C17 and "
+             "buildWorkspace_total: server_locations_denote_all (for every workspace built from files and all seven answer kinds of "
+             "the handler models, no hypothesis). The model's conversions are compared with the reference mapper (and so with the "
+             "server's JSON) on every answer of every run. URI encoding and the u32 line overflow panic are not modelled.",
+        tech="Lean 4 proof (model of the LSP conversion layer composed with the C10 round trip and C17's range validity) + JSON-level correspondence on multi-file workspaces with differing line structure",
         ref="DESIGN.md §7 C09"),
     "C10": dict(
         text="Lean theorems for all texts: roundtrip (every char-boundary offset converts to a position and back), "
